@@ -15,7 +15,7 @@ ASSUMPTIONS = ["every cluster keeps at least one sample (paths with an empty clu
                "descent = (centroid is the mean) + (the mean minimises the within-cluster sum: proved per cluster) + (re-assignment to the nearest centroid cannot increase the sum: min <= member, proved) chained by transitivity"]
 EXHAUSTIVE = ["all argmin paths (assignments, including ties -> first index)", "all row chunkings of the Dask input", "caps 0..K / None, thresholds symbolic / None"]
 OUTSIDE = ["K,D,N beyond those listed", "rounding"]
-SIZES = {"quick": [(2, 1, 3), (2, 2, 3)], "thorough": [(2, 1, 3), (2, 2, 3), (2, 1, 4), (3, 1, 3), (2, 2, 4), (3, 2, 3)]}
+SIZES = {"quick": [(1, 2, 3), (2, 1, 3), (2, 2, 3)], "thorough": [(2, 1, 3), (2, 2, 3), (2, 1, 4), (3, 1, 3), (2, 2, 4), (3, 2, 3)]}
 LOOPK = {"quick": 4, "thorough": 6}
 
 
@@ -170,7 +170,7 @@ def jobs(tier):
     out = [("int-init", "job_int_init", {})]
     for (K, D, N) in SIZES[tier]:
         out.append(("step@K%dD%dN%d" % (K, D, N), "job_step", dict(K=K, D=D, N=N)))
-    for (K, D, N) in SIZES[tier][:2]:
+    for (K, D, N) in [s_ for s_ in SIZES[tier] if s_[0] >= 2][:2]:
         for comp in compositions(N):
             if len(comp) > 1:
                 out.append(("dask@K%dD%dN%d-%s" % (K, D, N, "+".join(map(str, comp))), "job_step_dask", dict(K=K, D=D, N=N, chunks=comp)))
